@@ -685,6 +685,43 @@ func c19GeneratedIDs(c *h.Ctx) {
 	}
 }
 
+// c19ZoneNames: context zones whose abbreviations collide (CST is Chicago,
+// Shanghai and Havana; IST is Kolkata, Jerusalem and Dublin): a cast made under
+// one of them is not coloured by the casts made under the others before.
+func c19ZoneNames(c *h.Ctx) {
+	type zc struct {
+		zone string
+		ts   string
+	}
+	order := []zc{{"America/Chicago", "2024-01-15T12:00:00"}, {"Asia/Shanghai", "2024-01-15T12:00:00"}, {"America/Havana", "2024-01-15T12:00:00"}, {"Asia/Kolkata", "2024-01-15T12:00:00"}, {"Asia/Jerusalem", "2024-01-15T12:00:00"},
+		{"Europe/Dublin", "2024-07-15T12:00:00"}, {"Asia/Shanghai", "2024-07-15T12:00:00"}, {"America/Chicago", "2024-07-15T12:00:00"}, {"Europe/London", "2024-07-15T12:00:00"}, {"Asia/Kolkata", "2024-07-15T12:00:00"}}
+	if c.Shard%2 == 1 {
+		for i, j := 0, len(order)-1; i < j; i, j = i+1, j-1 {
+			order[i], order[j] = order[j], order[i]
+		}
+	}
+	p := path.MustParse(`$.timestamp_tz().string()`)
+	pc := path.MustParse(`$.timestamp_tz() == $v.timestamp_tz()`)
+	for _, z := range order {
+		loc, err := time.LoadLocation(z.zone)
+		if err != nil {
+			c.Count("zone-unavailable", 1)
+			continue
+		}
+		wall, _ := time.Parse("2006-01-02T15:04:05", z.ts)
+		inst := time.Date(wall.Year(), wall.Month(), wall.Day(), wall.Hour(), wall.Minute(), wall.Second(), 0, loc)
+		want := inst.Format("2006-01-02T15:04:05-07:00")
+		oq := h.Call("query", p, z.ts, h.Opts{TZ: true, Zone: loc})
+		om := h.Call("match", pc, z.ts, h.Opts{TZ: true, Zone: loc, Vars: map[string]any{"v": want}})
+		c.Eval(2)
+		if oq.Class != h.OK || len(oq.Items) != 1 || oq.Items[0] != want || om.Class != h.OK || !om.Bool {
+			c.Violate("history-dependent", h.F("kind", "zone-abbreviation"), fmt.Sprintf("%q.timestamp_tz() with WithTZ under the context zone %s = %s (equal to %q: %s); the zone's own rules give %s - after casts under other zones with the same abbreviation", z.ts, z.zone, oq.Summary(), want, om.Summary(), want), h.Case{Kind: "zone-names", Zone: z.zone})
+		} else {
+			c.Held("history-dependent")
+		}
+	}
+}
+
 func deepCopyJSON(v any) any {
 	b, err := json.Marshal(v)
 	if err != nil {
@@ -1226,6 +1263,7 @@ func runC19(c *h.Ctx) {
 	c19HugeArrays(c)
 	c19Rescanned(c)
 	c19GeneratedIDs(c)
+	c19ZoneNames(c)
 	c.Count("overlap.operation-pairs", overlapPairs)
 	c.Count("overlap.same-path-pairs", overlapSamePath)
 	c.Count("max:goroutines", int64(cf.n))
